@@ -86,7 +86,7 @@ fn deep_trigger(g: &mut Gen, target: usize) -> E {
                 let x = g.next_var; g.next_var += 1;
                 let e = if g.rng.chance(1, 4) { E::Read(IntKind { bytes: 1, signed: false, be: false }, bx(E::Arith(Op::Add, bx(E::Filesize), bx(E::Int(g.rng.range(0, 5)))))) }
                         else { E::Arith(Op::Add, bx(E::Filesize), bx(E::Int(g.rng.range(0, 50)))) };
-                infos.push(VarInfo { name: x, ty: T::Int, cval: None });
+                infos.push(VarInfo { name: x, ty: T::Int, cval: None, small: true });
                 decls.push((x, e));
             }
             g.scope.extend(infos); g.slots += n;
@@ -97,7 +97,7 @@ fn deep_trigger(g: &mut Gen, target: usize) -> E {
         3 => {
             let x = g.next_var; g.next_var += 1;
             let lo = g.rng.range(0, 3);
-            g.scope.push(VarInfo { name: x, ty: T::Int, cval: None }); g.slots += 7;
+            g.scope.push(VarInfo { name: x, ty: T::Int, cval: None, small: true }); g.slots += 7;
             let b = deep_trigger(g, target);
             g.slots -= 7; g.scope.pop();
             let q = *g.rng.pick(&[0, 1, 2]);
@@ -106,7 +106,7 @@ fn deep_trigger(g: &mut Gen, target: usize) -> E {
         4 => {
             let x = g.next_var; g.next_var += 1;
             let items = vec![E::Int(g.rng.range(0, 5)), E::Read(IntKind { bytes: 1, signed: false, be: false }, bx(E::Arith(Op::Add, bx(E::Filesize), bx(E::Int(1))))), E::Filesize];
-            g.scope.push(VarInfo { name: x, ty: T::Int, cval: None }); g.slots += 7;
+            g.scope.push(VarInfo { name: x, ty: T::Int, cval: None, small: true }); g.slots += 7;
             let b = deep_trigger(g, target);
             g.slots -= 7; g.scope.pop();
             E::ForTuple(if g.rng.chance(1, 2) { Q::Any } else { Q::Expr(bx(E::Int(2))) }, x, items, bx(b))
